@@ -14,6 +14,9 @@ package main
 // harness-only annotations start with '~' and are stripped before the line goes to the model:
 //   <n>~i   no defgeneric form: the first defmethod creates the generic function
 //   d…~b    the method's parameters specialised on t are written as bare symbols
+//   d…~g    the method is defined from Go (generic.DefCallerMethod) instead of a defmethod form
+//   <n>~m<k> the first k operations (defmethods) are :method options of the defgeneric form
+//   <n>~o   every lambda list ends in `&optional o`; every second call passes a value for it
 //
 // Bounded-exhaustive families run sharded over worker subprocesses (this binary re-executed with
 // VH_C10_WORKER=1): interpreter state is process-global and single-threaded workers keep the
@@ -34,6 +37,7 @@ import (
 	"sync/atomic"
 
 	"github.com/ohler55/slip"
+	"github.com/ohler55/slip/pkg/generic"
 	"verif/harness/lib"
 )
 
@@ -56,6 +60,8 @@ type c10World struct {
 	log       []string
 	gensym    int
 	goBodies  bool                     // :around bodies are one call of the Go primitive c10-ar (concurrent facets)
+	optLL     bool                     // lambda lists end in &optional o (histories annotated ~o)
+	optArg    bool                     // the call being rendered passes a value for o
 	conc      map[slip.Object][]string // concurrent facet: per-call logs keyed by the first argument object
 	concMu    sync.Mutex
 }
@@ -262,12 +268,14 @@ type c10Op struct {
 	id   int
 	mode byte // g d s (around bodies)
 	bare bool // t specializers written as bare parameter symbols
+	viaGo bool // defined through generic.DefCallerMethod
 }
 
 type c10Hist struct {
 	n         int
 	implicit  bool // no defgeneric form
 	inGeneric int  // the first inGeneric operations (all defmethod) are written as :method options of the defgeneric form
+	optional  bool // every lambda list ends in &optional o
 	ops       []c10Op
 }
 
@@ -285,6 +293,8 @@ func (op c10Op) word() string {
 		s := fmt.Sprintf("d%c:%s:%d:%c", op.qual, c10Join(op.key), op.id, op.mode)
 		if op.bare {
 			s += "~b"
+		} else if op.viaGo {
+			s += "~g"
 		}
 		return s
 	case 'r':
@@ -303,10 +313,16 @@ func (h c10Hist) line(w *c10World) string {
 	var b strings.Builder
 	b.WriteString("disp run ")
 	b.WriteString(strconv.Itoa(h.n))
-	if h.implicit {
-		b.WriteString("~i")
-	} else if 0 < h.inGeneric {
-		fmt.Fprintf(&b, "~m%d", h.inGeneric)
+	if h.implicit || 0 < h.inGeneric || h.optional {
+		b.WriteByte('~')
+		if h.implicit {
+			b.WriteByte('i')
+		} else if 0 < h.inGeneric {
+			fmt.Fprintf(&b, "m%d", h.inGeneric)
+		}
+		if h.optional {
+			b.WriteByte('o')
+		}
 	}
 	b.WriteString(" 0 ")
 	// the class table: every argument class used by a call
@@ -373,7 +389,13 @@ func c10Parse(line string) (h c10Hist, ok bool) {
 	}
 	nw := words[2]
 	if j := strings.IndexByte(nw, '~'); 0 <= j {
-		switch ann := nw[j+1:]; {
+		ann := nw[j+1:]
+		if strings.HasSuffix(ann, "o") {
+			h.optional = true
+			ann = strings.TrimSuffix(ann, "o")
+		}
+		switch {
+		case ann == "":
 		case ann == "i":
 			h.implicit = true
 		case strings.HasPrefix(ann, "m"):
@@ -397,6 +419,9 @@ func c10Parse(line string) (h c10Hist, ok bool) {
 		if strings.HasSuffix(w, "~b") {
 			op.bare = true
 			w = strings.TrimSuffix(w, "~b")
+		} else if strings.HasSuffix(w, "~g") {
+			op.viaGo = true
+			w = strings.TrimSuffix(w, "~g")
 		}
 		parts := strings.Split(w, ":")
 		switch {
@@ -469,6 +494,9 @@ func (w *c10World) form(g string, n int, op c10Op) string {
 		if q != "" {
 			q += " "
 		}
+		if w.optLL {
+			ll = append(ll, "&optional o")
+		}
 		return fmt.Sprintf("(defmethod %s %s(%s) %s)", g, q, strings.Join(ll, " "), body)
 	case 'r':
 		var sp []string
@@ -490,7 +518,52 @@ func (w *c10World) form(g string, n int, op c10Op) string {
 	if op.kind == 'm' {
 		return fmt.Sprintf("(compute-applicable-methods '%s (list %s))", g, strings.Join(as, " "))
 	}
+	if w.optArg {
+		as = append(as, "99")
+	}
 	return fmt.Sprintf("(%s %s)", g, strings.Join(as, " "))
+}
+
+// defineViaGo defines the method of a defmethod operation through the Go interface
+// generic.DefCallerMethod: the caller is the lambda of the same body, the specializers are the
+// Type fields of the FuncDoc arguments.
+func (w *c10World) defineViaGo(g string, n int, op c10Op) lib.Outcome {
+	src := w.form(g, n, c10Op{kind: 'd', qual: 'p', key: op.key, id: op.id, mode: op.mode})
+	if op.qual == 'r' {
+		src = w.form(g, n, c10Op{kind: 'd', qual: 'r', key: op.key, id: op.id, mode: op.mode})
+	}
+	// (defmethod g [q] (ll) body…) → the body after the lambda list
+	i := strings.Index(src, ") ")
+	for depth, j := 0, strings.Index(src, "("+"("); 0 <= j && j < len(src); j++ { // find the end of the lambda list
+		switch src[j] {
+		case '(':
+			depth++
+		case ')':
+			depth--
+			if depth == 0 {
+				i = j
+				j = len(src)
+			}
+		}
+	}
+	params := []string{"x", "y", "z"}[:n]
+	lsrc := fmt.Sprintf("(lambda (%s%s) %s", strings.Join(params, " "), map[bool]string{true: " &optional o", false: ""}[w.optLL], src[i+2:])
+	return lib.Protect(func() slip.Object {
+		lam, _ := w.scope.Eval(slip.ReadString(lsrc, w.scope)[0], 0).(*slip.Lambda)
+		if lam == nil {
+			panic("c10: not a lambda: " + lsrc)
+		}
+		fd := &slip.FuncDoc{Name: g, Kind: slip.MethodSymbol, Return: "object"}
+		for k, c := range op.key {
+			fd.Args = append(fd.Args, &slip.DocArg{Name: params[k], Type: w.className[c]})
+		}
+		if w.optLL {
+			fd.Args = append(fd.Args, &slip.DocArg{Name: "&optional"}, &slip.DocArg{Name: "o"})
+		}
+		lam.Doc = fd
+		generic.DefCallerMethod(c10QualName[op.qual], lam, fd)
+		return nil
+	})
 }
 
 var c10IDRe = regexp.MustCompile(`c10-(?:tr|en|ar) (\d+)`)
@@ -544,7 +617,7 @@ func c10MethodWord(v slip.Object) string {
 // the defgeneric form of a history, with its first inGeneric methods as :method options
 func (w *c10World) defgeneric(g string, h c10Hist) string {
 	var b strings.Builder
-	fmt.Fprintf(&b, "(defgeneric %s (%s)", g, strings.Join([]string{"x", "y", "z"}[:h.n], " "))
+	fmt.Fprintf(&b, "(defgeneric %s (%s%s)", g, strings.Join([]string{"x", "y", "z"}[:h.n], " "), map[bool]string{true: " &optional o", false: ""}[h.optional])
 	for _, op := range h.ops[:h.inGeneric] {
 		b.WriteString(" (:method ")
 		b.WriteString(strings.TrimPrefix(w.form(g, h.n, op), "(defmethod "+g+" "))
@@ -555,11 +628,21 @@ func (w *c10World) defgeneric(g string, h c10Hist) string {
 
 func (w *c10World) forms(g string, h c10Hist) []string {
 	var out []string
+	w.optLL = h.optional
+	defer func() { w.optLL, w.optArg = false, false }()
 	if !h.implicit {
 		out = append(out, w.defgeneric(g, h))
 	}
-	for _, op := range h.ops[h.inGeneric:] {
-		out = append(out, w.form(g, h.n, op))
+	for i, op := range h.ops {
+		if i < h.inGeneric {
+			continue
+		}
+		w.optArg = h.optional && i%2 == 1
+		f := w.form(g, h.n, op)
+		if op.kind == 'd' && op.viaGo {
+			f = "#| from Go: generic.DefCallerMethod with the lambda and specializers of |# " + f
+		}
+		out = append(out, f)
 	}
 	return out
 }
@@ -570,6 +653,8 @@ func (w *c10World) runImpl(h c10Hist) string {
 	w.gensym++
 	g := fmt.Sprintf("c10g%d", w.gensym)
 	words := []string{"ok"}
+	w.optLL = h.optional
+	defer func() { w.optLL, w.optArg = false, false }()
 	if !h.implicit {
 		o := lib.EvalString(w.scope, w.defgeneric(g, h))
 		if !o.Ok {
@@ -578,6 +663,13 @@ func (w *c10World) runImpl(h c10Hist) string {
 	}
 	for i, op := range h.ops {
 		if i < h.inGeneric {
+			continue
+		}
+		w.optArg = h.optional && i%2 == 1
+		if op.kind == 'd' && op.viaGo {
+			if o := w.defineViaGo(g, h.n, op); !o.Ok {
+				words = append(words, fmt.Sprintf("X%d:%s", i, o.Class))
+			}
 			continue
 		}
 		src := w.form(g, h.n, op)
@@ -1039,6 +1131,9 @@ func (w *c10World) randomHistory(r *lib.Rng) c10Hist {
 				op.mode = 's'
 			}
 			op.bare = r.Chance(20)
+			if !op.bare && r.Chance(12) {
+				op.viaGo = true
+			}
 			h.ops = append(h.ops, op)
 		}
 	}
@@ -1059,8 +1154,12 @@ func (w *c10World) randomHistory(r *lib.Rng) c10Hist {
 		}
 		if 0 < lead {
 			h.inGeneric = 1 + r.Intn(lead)
+			for i := 0; i < h.inGeneric; i++ {
+				h.ops[i].viaGo = false
+			}
 		}
 	}
+	h.optional = r.Chance(15)
 	return h
 }
 
@@ -2530,7 +2629,7 @@ func (w *c10World) shrink(c *lib.Ctx, h c10Hist, callIdx int) (c10Hist, int) {
 	for changed := true; changed; {
 		changed = false
 		for i := 0; i < len(h.ops)-1; i++ {
-			cand := c10Hist{n: h.n, implicit: h.implicit, inGeneric: h.inGeneric}
+			cand := c10Hist{n: h.n, implicit: h.implicit, inGeneric: h.inGeneric, optional: h.optional}
 			if i < h.inGeneric {
 				cand.inGeneric--
 			}
@@ -2817,11 +2916,14 @@ func runC10(c *lib.Ctx) {
 	}
 	{
 		// spelling sweep: methods given as :method options of defgeneric (each qualifier, two
-		// specializer tuples, 1–3 arguments), then replaced by defmethod and removed
+		// specializer tuples, 1–3 arguments), then replaced by defmethod or from Go
+		// (generic.DefCallerMethod) and removed; with and without an &optional parameter
 		var hs []c10Hist
 		for n := 1; n <= 3; n++ {
 			for _, q := range "pbar" {
-				for k := 1; k <= 3; k++ {
+				for k := 1; k <= 6; k++ {
+					optional := 3 < k
+					k := (k-1)%3 + 1
 					spec := make([]int, n)
 					for i := range spec {
 						spec[i] = w.classID["c10a"]
@@ -2831,13 +2933,13 @@ func runC10(c *lib.Ctx) {
 					for i := range arg {
 						arg[i] = w.classID["c10c"]
 					}
-					hs = append(hs, c10Hist{n: n, inGeneric: k, ops: []c10Op{
+					hs = append(hs, c10Hist{n: n, inGeneric: k, optional: optional, ops: []c10Op{
 						{kind: 'd', qual: byte(q), key: spec, id: 11, mode: 'g'},
 						{kind: 'd', qual: 'p', key: gen, id: 12, mode: 's', bare: n == 2},
 						{kind: 'd', qual: byte(q), key: gen, id: 13, mode: 'g'},
 						{kind: 'c', key: arg},
 						{kind: 'm', key: arg},
-						{kind: 'd', qual: byte(q), key: spec, id: 14, mode: 'g'},
+						{kind: 'd', qual: byte(q), key: spec, id: 14, mode: 'g', viaGo: k != 2},
 						{kind: 'c', key: arg},
 						{kind: 'r', qual: byte(q), key: spec},
 						{kind: 'c', key: arg},
